@@ -145,6 +145,11 @@ func runC06(t *testing.T, r *engine.Run) {
 			return
 		}
 		r.Probe("checkpoints")
+		if n := os.Getenv("VERIF_DEBUG_CLA"); n != "" { // analysis aid: size of one endpoint resource per client, held and fresh
+			for _, c := range w.clients {
+				r.Logf("debug-cla: %s holds %d bytes of %s, its cache-less replica %d", c.name, len(c.heldView()[v3.EndpointType][n]), n, len(fresh[c.name][v3.EndpointType][n]))
+			}
+		}
 		for _, c := range w.clients {
 			d := diffViews(c.heldView(), fresh[c.name])
 			if len(d) > 0 {
